@@ -2,6 +2,7 @@ package main
 
 import (
 	"go/types"
+	"strings"
 
 	"golang.org/x/tools/go/ssa"
 )
@@ -53,8 +54,8 @@ func (e *Engine) mergeable(fn *ssa.Function) bool {
 				return false
 			}
 		}
-		if len(fn.Name()) > 5 && fn.Name()[:5] == "Verif" || len(fn.Name()) > 5 && fn.Name()[:5] == "verif" {
-			return false
+		if strings.HasPrefix(fn.Name(), "Verif") || strings.HasPrefix(fn.Name(), "verif") || strings.HasPrefix(fn.Name(), "ref") {
+			return false // harness and reference code is executed as written
 		}
 		return true
 	}()
